@@ -185,8 +185,8 @@ impl Mp4Box for EsdsBox {
         HEADER_SIZE
             + HEADER_EXT_SIZE
             + 1
-            + size_of_length(ESDescriptor::desc_size()) as u64
-            + ESDescriptor::desc_size() as u64
+            + size_of_length(self.es_desc.desc_size()) as u64
+            + self.es_desc.desc_size() as u64
     }
 
     fn to_json(&self) -> Result<String> {
@@ -248,7 +248,7 @@ impl<W: Write> WriteBox<&mut W> for EsdsBox {
 
 trait Descriptor: Sized {
     fn desc_tag() -> u8;
-    fn desc_size() -> u32;
+    fn desc_size(&self) -> u32;
 }
 
 trait ReadDesc<T>: Sized {
@@ -326,13 +326,13 @@ impl Descriptor for ESDescriptor {
         0x03
     }
 
-    fn desc_size() -> u32 {
+    fn desc_size(&self) -> u32 {
         3 + 1
-            + size_of_length(DecoderConfigDescriptor::desc_size())
-            + DecoderConfigDescriptor::desc_size()
+            + size_of_length(self.dec_config.desc_size())
+            + self.dec_config.desc_size()
             + 1
-            + size_of_length(SLConfigDescriptor::desc_size())
-            + SLConfigDescriptor::desc_size()
+            + size_of_length(self.sl_config.desc_size())
+            + self.sl_config.desc_size()
     }
 }
 
@@ -374,7 +374,7 @@ impl<R: Read + Seek> ReadDesc<&mut R> for ESDescriptor {
 
 impl<W: Write> WriteDesc<&mut W> for ESDescriptor {
     fn write_desc(&self, writer: &mut W) -> Result<u32> {
-        let size = Self::desc_size();
+        let size = self.desc_size();
         write_desc(writer, Self::desc_tag(), size)?;
 
         writer.write_u16::<BigEndian>(self.es_id)?;
@@ -418,10 +418,10 @@ impl Descriptor for DecoderConfigDescriptor {
         0x04
     }
 
-    fn desc_size() -> u32 {
+    fn desc_size(&self) -> u32 {
         13 + 1
-            + size_of_length(DecoderSpecificDescriptor::desc_size())
-            + DecoderSpecificDescriptor::desc_size()
+            + size_of_length(self.dec_specific.desc_size())
+            + self.dec_specific.desc_size()
     }
 }
 
@@ -468,7 +468,7 @@ impl<R: Read + Seek> ReadDesc<&mut R> for DecoderConfigDescriptor {
 
 impl<W: Write> WriteDesc<&mut W> for DecoderConfigDescriptor {
     fn write_desc(&self, writer: &mut W) -> Result<u32> {
-        let size = Self::desc_size();
+        let size = self.desc_size();
         write_desc(writer, Self::desc_tag(), size)?;
 
         writer.write_u8(self.object_type_indication)?;
@@ -505,8 +505,13 @@ impl Descriptor for DecoderSpecificDescriptor {
         0x05
     }
 
-    fn desc_size() -> u32 {
-        2
+    fn desc_size(&self) -> u32 {
+        // 5 + 4 + 4 bits, or 5 + 6 + 4 + 4 bits with the escaped object type
+        if self.profile > 31 {
+            3
+        } else {
+            2
+        }
     }
 }
 
@@ -565,11 +570,21 @@ impl<R: Read + Seek> ReadDesc<&mut R> for DecoderSpecificDescriptor {
 
 impl<W: Write> WriteDesc<&mut W> for DecoderSpecificDescriptor {
     fn write_desc(&self, writer: &mut W) -> Result<u32> {
-        let size = Self::desc_size();
+        let size = self.desc_size();
         write_desc(writer, Self::desc_tag(), size)?;
 
-        writer.write_u8((self.profile << 3) + (self.freq_index >> 1))?;
-        writer.write_u8((self.freq_index << 7) + (self.chan_conf << 3))?;
+        if self.profile > 31 {
+            // audioObjectType 31 announces a 6-bit extension holding type - 32
+            let ext = self.profile - 32;
+            writer.write_u8(0xF8 | (ext >> 3))?;
+            writer.write_u8(
+                ((ext & 7) << 5) | ((self.freq_index & 0x0F) << 1) | (self.chan_conf >> 3),
+            )?;
+            writer.write_u8((self.chan_conf & 7) << 5)?;
+        } else {
+            writer.write_u8((self.profile << 3) + (self.freq_index >> 1))?;
+            writer.write_u8((self.freq_index << 7) + (self.chan_conf << 3))?;
+        }
 
         Ok(size)
     }
@@ -589,7 +604,7 @@ impl Descriptor for SLConfigDescriptor {
         0x06
     }
 
-    fn desc_size() -> u32 {
+    fn desc_size(&self) -> u32 {
         1
     }
 }
@@ -604,7 +619,7 @@ impl<R: Read + Seek> ReadDesc<&mut R> for SLConfigDescriptor {
 
 impl<W: Write> WriteDesc<&mut W> for SLConfigDescriptor {
     fn write_desc(&self, writer: &mut W) -> Result<u32> {
-        let size = Self::desc_size();
+        let size = self.desc_size();
         write_desc(writer, Self::desc_tag(), size)?;
 
         writer.write_u8(2)?; // pre-defined
